@@ -71,11 +71,12 @@ def judge(run, recs, source_of, tagname, family=0):
         owner[c["id"]] = rec
     if not cases:
         return
-    probe = next((c for c in cases if "opt2" in c and max(c["opt2"]) > 10 * pc.STEP), None)
-    if probe is not None:  # self-test of the binding: a bottleneck far below the optimum must be rejected
+    probe = next((c for c in cases if "opt2" in c and max(c["opt2"]) > 30 * pc.STEP), None)
+    if probe is not None:  # self-test of the binding: an all-zero bottleneck (below any optimum) must be rejected
         bad = json.loads(json.dumps(probe))
         bad["id"] = "selftest|" + probe["id"]
-        bad["opt2"] = [v // 2 for v in bad["opt2"]]
+        bad["opt2"] = [0 for v in bad["opt2"]]
+        bad.pop("opt1", None)
         cases.append(bad)
     chunks = [cases[i::4] for i in range(4)] if len(cases) > 1500 else [cases]
     with multiprocessing.pool.ThreadPool(len(chunks)) as tp:
@@ -105,7 +106,7 @@ def judge(run, recs, source_of, tagname, family=0):
                       "arch": rec.get("arch"), "case": c})
     if probe is not None:
         if not seen_selftest:
-            raise tlc.TLCError("self-test: halved bottleneck of %s was not rejected" % probe["id"])
+            raise tlc.TLCError("self-test: zeroed bottleneck of %s was not rejected" % probe["id"])
         cases = [c for c in cases if not c["id"].startswith("selftest|")]
     run.add_traces(len(cases))
     for c in cases:
